@@ -25,8 +25,8 @@ Proof.
     + inversion Hr; subst. eexists; eexists. split; [reflexivity|]. split; [reflexivity|]. apply step_Call_plain; auto.
   - (* TCall *)
     destruct (frames st) as [|f rest] eqn:HF; [discriminate|].
-    destruct ((f_slot f =? s0) && negb (exc st) && (negb (flight st) || (0 <? extra st)) && all_homogeneous false (f_pend f)) eqn:G; [|discriminate].
-    split_and G. apply N.eqb_eq in G. subst s0. apply negb_true_iff in G2.
+    destruct ((f_slot f =? s0) && negb (exc st) && (negb (flight st) || (0 <? extra st))) eqn:G; [|discriminate].
+    split_and G. apply N.eqb_eq in G. subst s0. apply negb_true_iff in G1.
     inversion Hr; subst. eexists; eexists. split; [reflexivity|]. split; [reflexivity|]. apply step_TCall; auto.
   - (* UCall *)
     destruct (below_top (frames st) s0 && valid_ra r) eqn:G; [|discriminate]. split_and G.
@@ -59,8 +59,8 @@ Proof.
       * discriminate.
   - (* TPlt *)
     destruct (frames st) as [|f rest] eqn:HF; [discriminate|].
-    destruct ((f_slot f =? s0) && negb (exc st) && (negb (flight st) || (0 <? extra st)) && all_homogeneous true (f_pend f)) eqn:G; [|discriminate].
-    split_and G. apply N.eqb_eq in G. subst s0. apply negb_true_iff in G2.
+    destruct ((f_slot f =? s0) && negb (exc st) && (negb (flight st) || (0 <? extra st))) eqn:G; [|discriminate].
+    split_and G. apply N.eqb_eq in G. subst s0. apply negb_true_iff in G1.
     inversion Hr; subst. eexists; eexists. split; [reflexivity|]. split; [reflexivity|]. apply step_TPlt; auto.
   - (* Ret *)
     destruct (frames st) as [|f rest] eqn:HF; [discriminate|].
